@@ -72,8 +72,14 @@ def _semantics_and_views(case):
     for hist in histories:
         q = Port(line, protocol="tcp", port_nr=True)
         try:
-            for view in hist:
-                setattr(q, view, getattr(q, view))
+            for n_, view in enumerate(hist):
+                val = getattr(q, view)
+                if view in ("items", "ports") and len(val) < 2000:
+                    # the setters accept a set, a list or a tuple: the expression's own values in any container and order
+                    val = [val, tuple(val), set(val), list(reversed(val))][(n_ + len(line)) % 4]
+                    if len(set(val)) != len(getattr(q, view)):
+                        val = getattr(q, view)          # repeated operands cannot be written as a set
+                setattr(q, view, val)
             after = (q.line, frozenset(q.ports), q.sport)
         except Exception as ex:
             after = f"{type(ex).__name__}: {ex}"
